@@ -22,8 +22,8 @@ RULE = ("Scripted optimizers (distinct names AlgoA/B/C) that log every optimize(
         "through serial/thread/process so that every slot is distinguishable; drawn by Hypothesis: the same space with "
         "random mode values, invalid mode strings, n_trials 1..3, n_workers, n_jobs, and export in csv / json / "
         "dataframe format into a fresh temporary directory. Oracle: reference broadcast in the documented precedence "
-        "(1, n, m, n*m algorithm-major): the log holds each (algorithm, task) pair exactly n_trials times, each with the "
-        "reference mode and the given n_workers; unknown mode strings and wrong-length tuples raise ValueError at "
+        "(1, n, m, n*m algorithm-major): the log holds each (algorithm, task) pair exactly n_trials times, each effectively run in the "
+        "reference mode (also when the algorithm instance was used before in another mode) and with the given n_workers; unknown mode strings and wrong-length tuples raise ValueError at "
         "construction; one table per algorithm of shape (n_trials, m) with one column per task; export_results creates "
         "exactly one file per algorithm directly under <path>/<algorithm name>/ with the format's extension and nothing "
         "else. Non-trivial = n >= 2 and m >= 2 with a non-broadcast `modes` shape, or an export, or a rejected "
@@ -75,6 +75,12 @@ def laws(c):
             algos.append(a)
         variables = scripted.dummy_task().variables
         tasks_ = [getattr(scripted, t)(variables=variables) for t in TASKS[:m]]
+        if c.get("preused"):
+            # the algorithm instances have been used before, in another mode: Multitask must still designate its own
+            for a in algos:
+                with contextlib.redirect_stdout(io.StringIO()):
+                    a.optimize(tasks_[0], mode=c["preused"], workers=2)
+            open(L.log_path, "w").close()
         try:
             mt = Multitask(tuple(algos), tuple(tasks_), modes=modes, n_workers=c["n_workers"])
         except ValueError:
@@ -158,7 +164,8 @@ def drawn_case(draw):
             modes[draw(st.integers(0, len(modes) - 1))] = draw(st.sampled_from(["Serial", "parallel", "", "threads", "s"]))
     return {"n": n, "m": m, "modes": modes, "n_trials": draw(st.integers(1, 3)),
             "n_workers": draw(st.sampled_from([None, 1, 2, 4])), "n_jobs": draw(st.integers(1, 4)),
-            "export": draw(st.sampled_from([None, "csv", "json", "dataframe"]))}
+            "export": draw(st.sampled_from([None, "csv", "json", "dataframe"])),
+            "preused": draw(st.sampled_from([None, None, None, "thread", "process"]))}
 
 
 def shards(tier):
@@ -177,7 +184,8 @@ def run_shard(shard, tier, seed):
         for si, shape in enumerate(("none", "one", "n", "m", "nm", "bad")):
             c = {"n": n, "m": m, "modes": shape_modes(shape, n, m, offset=si), "n_trials": 1 + (n + m + si) % 2,
                  "n_workers": [None, 2][(n + si) % 2], "n_jobs": 2,
-                 "export": [None, "csv", "json", "dataframe"][(n * 3 + m + si) % 4]}
+                 "export": [None, "csv", "json", "dataframe"][(n * 3 + m + si) % 4],
+                 "preused": [None, "thread"][(n + m + si) % 2]}
             vio, nt = laws(c)
             ctx.case(c, nt, [f"shape:{shape}", "enumerated"])
             try:
